@@ -112,7 +112,8 @@ def class_level_containers(idx):
             for st in c.body:
                 if isinstance(st, (ast.Assign, ast.AnnAssign)) and st.value is not None:
                     v = st.value
-                    mutable = isinstance(v, (ast.Set, ast.Dict, ast.List)) or (isinstance(v, ast.Call) and dotted(v.func) in ("set", "dict", "list", "IdMap", "IdSet", "collections.OrderedDict", "OrderedDict"))
+                    mutable = isinstance(v, (ast.Set, ast.Dict, ast.List)) or (isinstance(v, ast.Call) and dotted(v.func) in ("set", "dict", "list", "IdMap", "IdSet", "collections.OrderedDict", "OrderedDict")) \
+                        or (isinstance(v, ast.BinOp) and isinstance(v.op, (ast.BitOr, ast.BitAnd, ast.Sub, ast.Add)) and all(isinstance(x, (ast.Name, ast.Set, ast.BinOp)) for x in (v.left, v.right)))
                     t = st.targets[0] if isinstance(st, ast.Assign) else st.target
                     if mutable and isinstance(t, ast.Name):
                         out.setdefault(t.id, []).append((m, cname))
@@ -156,6 +157,29 @@ def run_alias_rule(run, rule_id="F-ALIAS"):
                     # rebinding the alias first (hit = set(hit) ...) makes it a private copy
                     rebound = any(isinstance(a, ast.Assign) and dotted(a.targets[0]) == hit and a.lineno > line and a.lineno < x.lineno for a in walk_local(f.node))
                     run.ob(rebound, f"{m.rel.split('/')[-1]}::{q}", file=m.rel, line=x.lineno, detail=f"in-place-via-{hit}", expected=f"a private copy of the shared `{attr}` (or a new object) is modified", found=src(x)[:70])
+    # a shared container stored into an instance attribute that the class updates in place
+    for m in idx.all_modules("cohdl/"):
+        for q, f in m.functions.items():
+            for a in walk_local(f.node):
+                if not (isinstance(a, ast.Assign) and isinstance(a.targets[0], ast.Attribute) and dotted(a.targets[0].value) == "self"):
+                    continue
+                vals = [a.value] + ([a.value.body, a.value.orelse] if isinstance(a.value, ast.IfExp) else [])
+                for v in vals:
+                    if isinstance(v, ast.Attribute) and v.attr in shared and (dotted(v.value) in ("self", "cls", "type(self)") or (dotted(v.value) or "").split(".")[-1] in {c for _m, c in shared[v.attr]}):
+                        inst = a.targets[0].attr
+                        cls_q = q.rsplit(".", 1)[0]
+                        # in-place updates of that instance attribute anywhere in the module (the class or its bases / subclasses)
+                        muts = [f"{g.node.name}:{x.lineno}" for q2, g in m.functions.items() for x in ast.walk(g.node)
+                                if isinstance(x, ast.Call) and isinstance(x.func, ast.Attribute) and x.func.attr in MUTATORS and dotted(x.func.value) == f"self.{inst}"]
+                        if muts:
+                            run.ob(False, f"{m.rel.split('/')[-1]}::{q}", file=m.rel, line=a.lineno, detail=f"shared-{v.attr}-stored-as-{inst}", expected=f"self.{inst} is a fresh object (it is updated in place at {muts[0]})", found=src(a)[:70])
+    # memoised factories hand the same mutable object to every caller
+    for m in idx.all_modules("cohdl/"):
+        for q, f in m.functions.items():
+            for d in f.node.decorator_list:
+                dn = dotted(d.func) if isinstance(d, ast.Call) else dotted(d)
+                if dn and dn.split(".")[-1] in ("cache", "lru_cache", "cached_property"):
+                    run.ob(False, f"{m.rel.split('/')[-1]}::{q}", file=m.rel, line=f.node.lineno, detail="memoised", expected="a fresh result per call (results are mutable objects that trial assignments write to)", found=f"@{dn}")
     # import-time aliases of re-bound globals
     rebound_targets = {}
     for m in idx.all_modules("cohdl/"):
